@@ -122,3 +122,21 @@ N("codec-scale-to_le_bytes_vec", ["C16"], [("src/support/ssz.rs", "        buf.e
 B("macro-pad_limbs-no-mask-test", ["C19"], [("ruint-macro/src/lib.rs", "    if limbs.len() > num_limbs || limbs.last().copied().unwrap_or(0) > mask {", "    let _ = mask;\n    if limbs.len() > num_limbs {")], "C19")
 B("macro-error-swallowed", ["C19"], [("ruint-macro/src/lib.rs", "                    Err(message) => error(span, &message),", "                    Err(_message) => TokenTree::Literal(Literal::u8_suffixed(0)),")], "C19")
 N("facade-qualified-path-style", ["C20"], [("src/support/num_traits.rs", "        <Self>::checked_add(*self, *other)", "        let (a, b) = (*self, *other);\n        Uint::checked_add(a, b)")])
+
+# ---- round-2 seeds turned into self-tests
+_FUSED = ("        // OPT: Expose actual merged mul_add algo.\n        (self * a) + b",
+          "        let mut limbs = b.into_limbs();\n        crate::algorithms::addmul_n(&mut limbs, self.as_limbs(), a.as_limbs());\n")
+B("facade-fused-mul_add-from_limbs", ["C20"],
+  [("src/support/num_traits.rs", _FUSED[0], _FUSED[1] + "        Self::from_limbs(limbs)")], "mul_add")
+N("facade-fused-mul_add-masked", ["C20"],
+  [("src/support/num_traits.rs", _FUSED[0], _FUSED[1] + "        if LIMBS > 0 {\n            limbs[LIMBS - 1] &= Self::MASK;\n        }\n        Self::from_limbs(limbs)")])
+N("facade-mul_add_assign-delegates", ["C20"],
+  [("src/support/num_traits.rs", "        *self *= a;\n        *self += b;", "        *self = MulAdd::mul_add(*self, a, b);")])
+N("lowlimb-roundtrip-unsigned-check", ["C07"],
+  [("src/from.rs", "        if value.bit_len() > 1 {\n            return Err(Self::Error::Overflow(BITS, value.bit(0), true));\n        }\n        Ok(value.as_limbs()[0] != 0)",
+    "        let low = value.limbs[0];\n        if low > 1 || value.limbs[1..].iter().any(|&limb| limb != 0) {\n            return Err(Self::Error::Overflow(BITS, value.bit(0), true));\n        }\n        Ok(low != 0)")])
+B("macro-hex-B-after-prefix", ["C19"],
+  [("ruint-macro/src/lib.rs", "&& !value.ends_with('_')", "&& value.ends_with(|c: char| c.is_ascii_hexdigit())")], "hex-B-grid")
+B("bytes-fast-path-no-range-check", ["C08"],
+  [("src/bytes.rs", "            if Self::LIMBS > 0 && limbs[Self::LIMBS - 1] > Self::MASK {\n                return None;\n            }\n            return Some(Self::from_limbs(limbs));",
+    "            return Some(Self::from_limbs(limbs));")], "from_limbs")
